@@ -136,6 +136,30 @@ pub fn run(ctx: &Ctx) -> i32 {
                 fs[0].1.push_str("    li a7, 10\n    ecall\n");
                 files = fs;
             }
+            if k % 4 == 1 {
+                // a register that is read before it is assigned, the first read sitting behind the
+                // join of 2-4 paths (in main: any register but a0/a1; in a function: a temporary);
+                // one diagnostic is expected, whatever the number of paths that reach the read
+                let arms = 2 + rng.below(3);
+                let r = *rng.pick(&["t3", "t4", "s2", "a5", "t6"]);
+                let in_fn = rng.chance(0.5);
+                let mut t = String::from("# join\nmain:\n");
+                if in_fn {
+                    t.push_str("    li a0, 1\n    jal f\n    li a7, 10\n    ecall\nf:\n");
+                }
+                for a in 0..arms - 1 {
+                    t.push_str(&format!("    li t0, {a}\n    beq a0, t0, arm_{a}\n"));
+                }
+                t.push_str("    li t1, 9\n    j join\n");
+                for a in 0..arms - 1 {
+                    t.push_str(&format!("arm_{a}:\n    li t1, {}\n{}", a + 1, if a + 2 < arms { "    j join\n" } else { "" }));
+                }
+                let r = if in_fn && !r.starts_with('t') { "t5" } else { r };
+                t.push_str(&format!("join:\n    add a0, t1, {r}\n"));
+                t.push_str(if in_fn { "    ret\n" } else { "    li a7, 10\n    ecall\n" });
+                files = vec![("main.s".to_string(), t)];
+                acc.count("join_family_programs", 1);
+            }
             acc.evaluations += 1;
             let replay = json!({"files": files});
             // ---------- library, fresh threads
